@@ -8,7 +8,7 @@ invoked exactly once — with the first acceptable reply, an error status, or a 
 the lookup was cancelled, in which case it is never invoked; datagrams that match no
 outstanding lookup are ignored."
 
-`Model.lean` follows the tree with patches/C15-01, C15-02 and C15-03 applied; the statements about the
+`Model.lean` follows the tree with patches/C15-01 … C15-04 applied; the statements about the
 unpatched parser (`Orig.lean`) are the `…_orig_…counterexample` theorems at the end.
 -/
 import TboxModel.C15.Proofs
@@ -166,93 +166,103 @@ theorem C15_called_log (ops : List Op) :
   have := run_called ops init
   simpa [CalledOK, init] using this
 
-/-
--- C15_callback_once (full strength): for every operation sequence from `init`, with callbacks
--- that themselves issue and cancel lookups, every lookup that was not refused and not cancelled
--- has its callback run exactly once, at the latest at the fifth tick after it was issued.
--- FALSE without a side condition: `requests_[req_id] = req` overwrites an outstanding lookup when
--- the 16-bit id wraps onto it (`C15_callback_once_counterexample`).  Proved:
---   * at most once, never once dead/cancelled — unconditionally (`C15_callback_at_most_once`,
---     `C15_cancelled_never_called`, `C15_no_callback_once_dead`);
---   * never outstanding for five ticks — unconditionally (`C15_outstanding_at_most_5_ticks`);
---   * no lookup is ever lost (`C15_callback_once_partial`) under the decidable hypothesis
---     `idReuse = false`.
--- Together: under `idReuse = false` a lookup that is neither refused nor cancelled is, from the
--- fifth tick after its issue on, in `called` — exactly once.
--- OPEN: "a TIMEOUT callback never comes before the fifth tick".  False in general
--- (`C15_timeout_early_counterexample`: a completed lookup's id stays in the ring; when the id
--- counter wraps onto it within five ticks the new lookup is timed out by the stale entry); the
--- hypothesis needed (no id of the ring or of the slot being walked is handed out) was not
--- carried through the proofs.  Tied by the differential runs only.
--/
+/-- **C15_callback_once** (full strength, no side condition).  For every operation sequence from
+`init` — lookups, cancels, replies in any order, duplicated, from several servers, with foreign
+ids, ticks, any number of lookups (the 16-bit id wraps), callbacks that themselves issue and
+cancel lookups — with `st` the final state and `evs` all callback invocations:
+1. no lookup's callback runs twice, and the log `st.called` is exactly `evs`;
+2. every lookup issued so far is called back, or was cancelled while outstanding, or was refused
+   (no server / all 65 535 ids in use), or is still outstanding and YOUNGER THAN FIVE TICKS — so
+   from its fifth tick on a lookup that was neither cancelled nor refused has been called;
+3. a cancelled lookup is never called, an outstanding one is in neither log;
+4. a callback is either a timeout delivered exactly at the fifth tick after the lookup was
+   issued, or a reply/error callback delivered before that. -/
+theorem C15_callback_once (ops : List Op) :
+    ((allEvents (run init ops).2).map (·.serial)).Nodup ∧
+    (run init ops).1.called = (allEvents (run init ops).2).map (·.serial) ∧
+    (∀ s, s < (run init ops).1.nextSerial →
+      s ∈ (run init ops).1.called ∨ s ∈ (run init ops).1.cancelled ∨ s ∈ (run init ops).1.refused ∨
+      ∃ e ∈ (run init ops).1.reqs, e.2.serial = s ∧ (run init ops).1.now - e.2.born < 5) ∧
+    (∀ s ∈ (run init ops).1.cancelled, s ∉ (run init ops).1.called) ∧
+    (∀ e ∈ (run init ops).1.reqs,
+      e.2.serial ∉ (run init ops).1.called ∧ e.2.serial ∉ (run init ops).1.cancelled) ∧
+    (∀ e ∈ allEvents (run init ops).2,
+      (e.result.status = .timeout → e.age = 5) ∧ (e.result.status ≠ .timeout → e.age < 5)) := by
+  have h1 := C15_callback_at_most_once ops
+  have h2 := C15_called_log ops
+  have h3 := run_ri ops init init_ri
+  have h4 := run_inv ops init init_inv
+  refine ⟨h1, h2, ?_, h4.2.1, h4.2.2.1, h3.2⟩
+  intro s hs
+  rcases h3.1.2.2 s hs with h | h | h | ⟨e, he, hse⟩
+  · exact Or.inl h
+  · exact Or.inr (Or.inl h)
+  · exact Or.inr (Or.inr (Or.inl h))
+  · exact Or.inr (Or.inr (Or.inr ⟨e, he, hse, (h3.1.1.1 e he).2.1⟩))
 
-/-- **C15_callback_once_partial.** For every operation sequence — callbacks issuing and cancelling
-lookups included — during which no lookup was handed an id that was still outstanding or still
-in the ring (`idReuse = false`, decidable ghost flag), no lookup is ever lost: each lookup issued
-so far (by an operation or from a callback) is still outstanding, or its callback has run, or it
-was cancelled while outstanding, or it was refused (no server configured). -/
-theorem C15_callback_once_partial (ops : List Op) (hf : (run init ops).1.idReuse = false) :
-    ∀ s, s < (run init ops).1.nextSerial →
-      s ∈ (run init ops).1.called ∨ s ∈ (run init ops).1.cancelled ∨
-      s ∈ (run init ops).1.refused ∨ ∃ e ∈ (run init ops).1.reqs, e.2.serial = s :=
-  ((run_pres ops init hf).2 (by simp [KU, init]) (by intro s hs; simp [init] at hs)).2
-
-/-- **C15_outstanding_at_most_5_ticks.** For every operation sequence, callbacks issuing lookups
-from inside reply, error and TIMEOUT callbacks included: every outstanding lookup was issued
-fewer than five ticks ago (and its id sits in the ring slot of its age, `value_number_` counting
-the ring).  So the tick that would make a lookup five ticks old removes it: it times out at the
-fifth tick after its issue unless completed or cancelled before.  Unconditional. -/
+/-- **C15_outstanding_at_most_5_ticks.** Every outstanding lookup was issued fewer than five
+ticks ago and its token (id, serial) sits in the ring slot of its age. -/
 theorem C15_outstanding_at_most_5_ticks (ops : List Op) :
     ∀ e ∈ (run init ops).1.reqs,
       e.2.born ≤ (run init ops).1.now ∧ (run init ops).1.now - e.2.born < 5 ∧
-      e.1 ∈ slot (run init ops).1 ((run init ops).1.now - e.2.born) :=
-  (run_timed ops init init_timed).1
+      (e.1, e.2.serial) ∈ slot (run init ops).1 ((run init ops).1.now - e.2.born) :=
+  (run_ri ops init init_ri).1.1.1
 
 /-- the tick is not skipped while something is outstanding: `value_number_` is the ring
-population and every outstanding id is in the ring -/
+population and every outstanding lookup has its token in the ring -/
 theorem C15_timer_armed_while_outstanding (ops : List Op) (h : (run init ops).1.reqs ≠ []) :
     (run init ops).1.valueNumber > 0 := by
-  have ht := run_timed ops init init_timed
+  have ht := (run_ri ops init init_ri).1.1
   generalize (run init ops).1 = st at h ht
   cases hr : st.reqs with
   | nil => exact absurd hr h
   | cons e l =>
     obtain ⟨_, ha, hm⟩ := ht.1 e (by rw [hr]; exact List.mem_cons_self)
-    rw [ht.2]
+    rw [ht.2.1]
     unfold ringLen
     generalize st.now - e.2.born = a at ha hm
     have : a = 0 ∨ a = 1 ∨ a = 2 ∨ a = 3 ∨ a = 4 := by omega
     rcases this with rfl | rfl | rfl | rfl | rfl <;>
       (have := List.length_pos_of_mem hm; simp only [slot] at this; omega)
 
-/-- **C15_timeout_early_counterexample.** A state satisfying all invariants in which a stale ring
-entry (id 1 of a lookup completed earlier, still in slot `r1`) coincides with the id of a
-lookup issued in the current second: the next tick times the new lookup out at age 1.
-Reachable from `init` only by wrapping the 16-bit id counter within five ticks. -/
-theorem C15_timeout_early_counterexample :
-    ∃ st : St, WF st ∧ Timed st ∧
-      (allEvents [(step st .tick).2]).map (fun e => (e.serial, e.result.status, e.age)) = [(7, Status.timeout, 1)] := by
-  refine ⟨{ alloc := 1, reqs := [(1, { serial := 7, born := 3 })], r0 := [1], r1 := [1], valueNumber := 2,
-            nextSerial := 8, now := 3 }, ?_, ?_, ?_⟩
-  · decide
-  · refine ⟨?_, by decide⟩
-    intro e he
-    simp at he
-    subst he
-    decide
-  · decide
+/-- **C15_alloc_finds_free_id.** The id allocation loop (`do … while (id == 0 || outstanding)`)
+ends within 65 536 steps at an id that is not 0 and not outstanding whenever fewer than 65 535
+lookups are outstanding — otherwise `request()` refuses. -/
+theorem C15_alloc_finds_free_id (reqs : List (Nat × Req)) (alloc : Nat) (h : reqs.length < 65535) :
+    probe reqs 65536 alloc ≠ 0 ∧ find reqs (probe reqs 65536 alloc) = none :=
+  probe_good reqs alloc h
 
-/-- **C15_callback_once_counterexample.** A well-formed state in which `lookup` is handed the id
-of an outstanding lookup (reachable from `init` only by wrapping the 16-bit id counter, i.e.
-65 536 lookups with the first still outstanding): the older lookup (serial 0) disappears
-without its callback having run and without having been cancelled. -/
-theorem C15_callback_once_counterexample :
-    ∃ st : St, WF st ∧ st.idReuse = false ∧ (∃ e ∈ st.reqs, e.2.serial = 0) ∧
-      (step st (.lookup 0)).1.idReuse = true ∧ 0 ∉ (step st (.lookup 0)).1.called ∧
-      0 ∉ (step st (.lookup 0)).1.cancelled ∧
-      (∀ e ∈ (step st (.lookup 0)).1.reqs, e.2.serial ≠ 0) ∧ (step st (.lookup 0)).2.events = [] := by
-  refine ⟨{ alloc := 0, reqs := [(1, { serial := 0 })], r0 := [1], valueNumber := 1, nextSerial := 1 }, ?_⟩
-  decide
+/-! ### the as-found id allocation (before patches/C15-04) violates "exactly once" -/
+
+/-- the id counter stands at 0 again (65 536 lookups later) while lookup 0 (id 1) is outstanding -/
+def wrapped : St :=
+  { alloc := 0, reqs := [(1, { serial := 0 })], r0 := [(1, 0)], valueNumber := 1, nextSerial := 1 }
+
+/-- **C15_orig_idwrap_counterexample.** As found (`Orig.lookupOld`: `req_id = ++req_id_alloc_;
+requests_[req_id] = req`) the next lookup is handed id 1 and overwrites lookup 0, which is then
+neither outstanding nor called nor cancelled: its callback never runs.  The repaired `lookup`
+skips the outstanding id (returns 2) and keeps lookup 0. -/
+theorem C15_orig_idwrap_counterexample :
+    WF wrapped ∧ (Orig.lookupOld wrapped 0).2 = 1 ∧
+    (∀ e ∈ (Orig.lookupOld wrapped 0).1.reqs, e.2.serial ≠ 0) ∧
+    0 ∉ (Orig.lookupOld wrapped 0).1.called ∧ 0 ∉ (Orig.lookupOld wrapped 0).1.cancelled ∧
+    (lookup wrapped 0).2 = 2 ∧ (∃ e ∈ (lookup wrapped 0).1.reqs, e.2.serial = 0) := by
+  decide +kernel
+
+/-- lookup 3 (id 1) completed two ticks ago, its ring entry is still in slot `r1`; the id counter
+has wrapped and lookup 7 was just handed id 1 again -/
+def staleToken : St :=
+  { alloc := 1, reqs := [(1, { serial := 7, born := 3 })], r0 := [(1, 7)], r1 := [(1, 3)],
+    valueNumber := 2, nextSerial := 8, now := 3 }
+
+/-- **C15_orig_timeout_early_counterexample.** As found (`Orig.tickOld`: the ring entry is a bare
+id) the stale entry times lookup 7 out at the next tick, at age 1.  The repaired `tick` sees that
+the entry belongs to request 3, not 7, and leaves lookup 7 alone. -/
+theorem C15_orig_timeout_early_counterexample :
+    WF staleToken ∧
+    (Orig.tickOld staleToken).2.map (fun e => (e.serial, e.result.status, e.age)) = [(7, Status.timeout, 1)] ∧
+    (tick staleToken).2 = [] ∧ (∃ e ∈ (tick staleToken).1.reqs, e.2.serial = 7) := by
+  decide +kernel
 
 /-! ### the callback runs after its lookup was erased (patches/C15-03) -/
 
@@ -355,7 +365,7 @@ example : (parseReply sample (fun _ => true)).val? =
 /-- a run with a duplicate reply, a cancel, a retry issued from inside a timeout callback and a
 cancel issued from inside a reply callback: callbacks 0 (success; its script cancels lookup 3),
 2 (timeout; its script issues lookup 4) and 4 (timeout, five ticks later) run once each, the
-cancelled lookups 1 and 3 never (the self-cancel inside callback 2 finds nothing); nothing is outstanding at the end; no id was reused -/
+cancelled lookups 1 and 3 never (the self-cancel inside callback 2 finds nothing); nothing is outstanding at the end -/
 example :
     let ops := [Op.defScript [.cancel 4], .defScript [.cancelSelf, .lookup 2], .defScript [],
                 .lookup 0, .lookup 2, .lookup 1, .lookup 2, .recv sample, .recv sample, .cancel 2,
@@ -363,7 +373,6 @@ example :
     (allEvents (run init ops).2).map (fun e => (e.serial, e.result.status, e.age, e.acts)) =
       [(0, Status.success, 0, [(Act.cancel 4, 1)]), (2, Status.timeout, 5, [(Act.cancelSelf, 0), (Act.lookup 2, 5)]),
        (4, Status.timeout, 5, [])] ∧
-    (run init ops).1.cancelled = [3, 1] ∧ (run init ops).1.reqs = [] ∧
-    (run init ops).1.idReuse = false := by decide +kernel
+    (run init ops).1.cancelled = [1, 3] ∧ (run init ops).1.reqs = [] := by decide +kernel
 
 end Tbox.C15
